@@ -28,7 +28,8 @@ TECHNIQUE = "perturbation of hash seeds / object-hash salts / heap layout across
 RULE = ("corpus per case: 3 accepted G-prog programs, 2 G-linear programs, 5 mutants (C02 mutators), "
         "3 programs with nested functions capturing 2-5 variables of random names, 4 programs of "
         "C08's definedness generator (mostly rejected, nested branches/loops), 3 programs reading a "
-        "variable assigned only behind 2-4 nested branches/loops, "
+        "variable assigned only behind 2-4 nested branches/loops, 3 programs using an undefined name in "
+        "several blocks of dead code, "
         "and 4 targeted shapes with >=2 simultaneous candidates for the reported item (branch type "
         "mismatches on 3 variables, 3 comptime parameters on an entry point, 2 leaked qubits, 2 "
         "undefined variables); 6 (quick) / 12 (thorough) configurations each. distinct = distinct "
@@ -95,7 +96,7 @@ def maybe_undefined_prog(rng):
     nested branches and loops, whose diagnostics pick one of several candidate blocks or variables."""
     from vf.props import c08
 
-    g = c08.G(rng, const_conds=False)
+    g = c08.G(rng, const_conds=rng.random() < 0.5)
     body = g.block(0, False)
     return c08.program(body)
 
@@ -146,6 +147,41 @@ def nested_maybe_prog(rng):
     return "\n".join(L) + "\n"
 
 
+def dead_undefined_prog(rng):
+    """An undefined name used in several blocks that are reachable only through never-taken edges
+    (after `while True:`, under `if False:`), behind at least one more block boundary: the
+    diagnostic has several uses to point at."""
+    v = rng.choice(["vv", "undef", "zz"])
+    c1, c2 = rng.sample(WORDS, 2)
+    L = ["from guppylang import guppy", "", "@guppy", f"def main({c1}: bool, {c2}: bool, nn: int) -> int:"]
+    form = rng.randrange(3)
+    if form == 0:
+        L += ["    ii = 0", "    while True:", "        ii += 1", f"        if ii > nn and {c1}:", "            return ii"]
+        ind = "    "
+    elif form == 1:
+        L += ["    ii = 0", "    if False:"]
+        ind = "        "
+    else:
+        L += ["    ii = nn", f"    while {c1}:", "        ii += 1", "        return ii", "    return 0"]
+        ind = "    "
+    # the dead region: 2-4 uses of the undefined name in different blocks
+    uses = rng.randint(2, 4)
+    L.append(f"{ind}if {c2}:")
+    L.append(f"{ind}    ii = {v} + 1")
+    if uses >= 3:
+        L.append(f"{ind}    while {c1}:")
+        L.append(f"{ind}        ii += {v}")
+    L.append(f"{ind}else:")
+    L.append(f"{ind}    ii = {v} + 2")
+    if uses >= 4:
+        L.append(f"{ind}if ii > 3:")
+        L.append(f"{ind}    ii -= {v}")
+    L.append(f"{ind}return ii")
+    if form == 1:
+        L.append("    return ii")
+    return "\n".join(L) + "\n"
+
+
 def plan(tier, seed):
     n = 16 if tier == "quick" else 160
     return {"n_cases": n, "params": {"configs": 6 if tier == "quick" else 12},
@@ -183,6 +219,9 @@ def build_corpus(rng):
     for _ in range(4):
         progs.append({"text": maybe_undefined_prog(rng), "entry": "main", "entrypoint": False,
                       "kind": "c08-definedness", "nontrivial": True})
+    for _ in range(3):
+        progs.append({"text": dead_undefined_prog(rng), "entry": "main", "entrypoint": False,
+                      "kind": "undefined-in-dead-code", "nontrivial": True})
     for _ in range(3):
         progs.append({"text": nested_maybe_prog(rng), "entry": "main", "entrypoint": False,
                       "kind": "nested-maybe-undefined", "nontrivial": True})
